@@ -146,6 +146,18 @@ def main():
     except Exception:
         print('CHECKER-ERROR', prop, traceback.format_exc()[-1500:])
         sys.exit(3)
+    # ---- hand-stated SMT-LIB lemmas (string theory; cvc5 back end): each must be unsat
+    import tempfile
+    from pyvc.discharge import _run, CVC5
+    for name, text in P.get('smt_lemmas', []):
+        with tempfile.NamedTemporaryFile('w', suffix='.smt2', delete=False) as f:
+            f.write(text)
+        v, dt, err = _run([CVC5, '--strings-exp', f'--tlimit={timeout * 1000}', f.name], timeout)
+        os.unlink(f.name)
+        res.append(dict(name=f'smt-lemma:{name}', fn='smt-lemmas', kind='lemma', line=0, verdict=v, solver='cvc5-1.0.3', time=dt, err=err,
+                        status='proved' if v == 'unsat' else ('refuted' if v == 'sat' else 'undecided'), goal=text.splitlines()[-2][:300], nhyps=0))
+    if P.get('smt_lemmas'):
+        infos.append(dict(name='smt-lemmas', src_hash='-', contract_hash='-', lines=(0, 0), n=len(P['smt_lemmas'])))
     # ---- static obligations (labelled static in the evidence)
     statics = []
     for name, fn in P.get('static', []):
